@@ -19,6 +19,7 @@ import (
 	"verifharness/plan"
 	"verifharness/sim"
 	"verifharness/tape"
+	"verifharness/wasmb"
 )
 
 // decision is one scripted host-function behaviour, decided by the model run
@@ -60,6 +61,14 @@ type recEvent struct {
 	extra int // length of the slice handed to the listener minus the number of parameters (results)
 }
 
+func (r *runner) enc(p *plan.Plan) []byte {
+	b := p.Encode()
+	if r.dwarf {
+		b = append(b, wasmb.DegenerateDWARF()...)
+	}
+	return b
+}
+
 type runner struct {
 	recCount          bool // the recursing functions carry counting listeners
 	recBefore, recEnd int64
@@ -72,6 +81,7 @@ type runner struct {
 	// context, cancelled after the call returned (never during it)
 	ensureTerm bool
 	termWaits  int
+	dwarf      bool // binaries carry wasmb.DegenerateDWARF
 	// multi: the factory is combined with a second one through MultiFunctionListenerFactory
 	multi bool
 	// perInstCompile: every instance is a separate CompileModule call with its own factory, all
@@ -438,7 +448,7 @@ func (r *runner) setup(plans []*plan.Plan, names []string, imports []int) {
 			ictx = experimental.WithFunctionListenerFactory(r.ctx, r.factory(i))
 		}
 		if cm == nil {
-			cm, err = r.rt.CompileModule(ictx, p.Encode())
+			cm, err = r.rt.CompileModule(ictx, r.enc(p))
 			if err != nil {
 				panic(fmt.Sprintf("harness: plan does not compile: %v", err))
 			}
